@@ -222,10 +222,11 @@ class BarrierScenario(Scenario):
         return True
 
     def setup(self, env: Env) -> None:
+        same = bool(self.params.get('same_names'))    # objects of different kinds may well share their names
         for i in range(self.params['n1']):
-            env.world.create(KEX, 'ns', f'x{i}', {'spec': {'x': i}})
+            env.world.create(KEX, 'ns', f'o{i}' if same else f'x{i}', {'spec': {'x': i}})
         for i in range(self.params['n2']):
-            env.world.create(KEX2, 'ns', f'w{i}', {'spec': {'w': i}})
+            env.world.create(KEX2, 'ns', f'o{i}' if same else f'w{i}', {'spec': {'w': i}})
         reg = kopf.OperatorRegistry()
         add_login(reg, env.world)
 
@@ -269,14 +270,19 @@ class BarrierScenario(Scenario):
         self.op.start()
 
     def script(self, env: Env) -> list[UserAction]:
-        return [UserAction(12.0, 'create-late', lambda e: e.world.create(KEX, 'ns', 'late', {'spec': {'x': 99}}))]
+        acts = [UserAction(12.0, 'create-late', lambda e: e.world.create(KEX, 'ns', 'late', {'spec': {'x': 99}}))]
+        if self.params.get('same_names'):
+            acts = [UserAction(7.0, 'edit-first-kind', lambda e: e.world.merge(KEX, 'ns', 'o0', {'spec': {'x': 50}})),
+                    UserAction(9.0, 'edit-second-kind', lambda e: e.world.merge(KEX2, 'ns', 'o0', {'spec': {'w': 51}}))] + acts
+        return acts
 
     def check(self, env: Env) -> list[Violation]:
         out: list[Violation] = []
         if env.end_reason in ('stall', 'livelock', 'step-budget'):
             return [self.viol(env, 'no-progress', f'execution ended with {env.end_reason}', end=env.end_reason)]
-        want1 = sorted(f'x{i}' for i in range(self.params['n1']))
-        want2 = sorted(f'w{i}' for i in range(self.params['n2']))
+        same = bool(self.params.get('same_names'))
+        want1 = sorted((f'o{i}' if same else f'x{i}') for i in range(self.params['n1']))
+        want2 = sorted((f'o{i}' if same else f'w{i}') for i in range(self.params['n2']))
         for t, k, p in env.obs:
             if k == 'handled':
                 miss1 = [n for n in want1 if n not in p['idx1']] if p['idx1'] is not None else []
@@ -300,6 +306,7 @@ def run(tier: str, seed: int) -> CheckResult:
                                        for h in histories(4, ['a', 'b']) if sum(1 for a in h if a[0] == 'set') <= 3 and any(a[0] in ('delete', 'label') for a in h)]
     barrier = [BarrierScenario(n1=n1, n2=n2, slow_index=slow, handlers_on_second=h2)
                for n1, n2, slow, h2 in [(1, 1, 0, False), (2, 1, 0, False), (1, 2, 1.0, False), (2, 2, 0, True), (0, 2, 0, False), (2, 0, 0, False)]]
+    barrier += [BarrierScenario(n1=2, n2=2, slow_index=0, handlers_on_second=h2, same_names=True) for h2 in (False, True)]
     barrier += [BarrierScenario(n1=n1, n2=n2, slow_index=0, slow_index2=slow2, handlers_on_second=False, only_second_indexed=True)
                 for n1, n2, slow2 in [(1, 1, 0), (2, 2, 0), (1, 2, 1.0)]]
     if tier == 'quick':
